@@ -427,7 +427,7 @@ class BinaryFileReader:
         return definition
 
     def read_data_count_definition(self):
-        n = self.read_int()
+        n = self.read_uint()
         return components.DataCount(n)
 
     def read_custom_definition(self):
